@@ -135,6 +135,38 @@ def h_payload(ctx):
             ctx.cover("sharing-refused")
 
 
+def h_sharing(ctx):
+    """publishing an array that shares memory with the PREVIOUSLY published one is refused -- whatever else is still
+    retained in the history"""
+    from finam.errors import FinamDataError
+    n = ctx.params["pushes"]
+    hlib.reset_finam_state()
+    out, inp = hlib.linked_pair(fm.Info(time=hlib.T0, grid=fm.NoGrid(1), units="m"))
+    pool = [np.array([1.0, 2.0]), np.array([3.0, 4.0]), np.array([5.0, 6.0])]
+    prev = None
+    t = hlib.T0
+    t_last = None
+    for k in range(n):
+        which = ctx.choice(f"buf{k}", len(pool))
+        view = ctx.flag(f"view{k}")
+        arr = pool[which][::-1] if view else pool[which]
+        if ctx.flag(f"pull_before{k}") and t_last is not None:
+            inp.pull_data(t_last)  # the consumer catches up: history shrinks to one entry
+        t = t + hlib.DAY
+        shares = prev is not None and prev == which
+        try:
+            out.push_data(arr, t)
+            res = "accepted"
+        except FinamDataError:
+            res = "refused"
+        ctx.cover(res)
+        ctx.check(res == ("refused" if shares else "accepted"), "memory-sharing-rule",
+                  {"sig": f"shares={shares}:got={res}:history={len(out.data)}"})
+        if res == "accepted":
+            prev = which
+            t_last = t
+
+
 EXPLANATION = (
     "Bounded symbolic execution (own proxy engine symx + z3) of the real Output.push_data / "
     "Output.get_data / Output._interpolate / Input.pull_data code: publication gaps and request times "
@@ -162,6 +194,9 @@ def families(tier):
         fams.append(dict(name="crosshair:nearest", kind="crosshair", ref="vf.chrun:replay", src=chsrc.NEAREST, params={},
                          bounds="CrossHair on Output._interpolate with 3-4 publications, gaps <= 10^6 / 10^4 us (independent second encoding; inconclusive results are reported, not counted)",
                          per_condition_timeout=60, must_cover=["ran"]))
+    fams.append(dict(name="sharing", ref="vf.props.c08:h_sharing", params={"pushes": 3 if q else 4},
+                     bounds="every sequence of 3-4 publications drawn from three buffers (or reversed views of them), with or "
+                            "without the consumer catching up in between", must_cover=["accepted", "refused"]))
     fams.append(dict(name="payload", ref="vf.props.c08:h_payload", params={},
                      bounds="6 grid kinds x 5 unit set-ups x 6 payload forms, symbolic values",
                      must_cover=["delivered", "sharing-refused"]))
